@@ -262,15 +262,14 @@ class C20(Check):
             for f in table[n]["fields"]:
                 expect(f["type"], 1.0, row)
             m.append(row)
+        # power iteration on M + I (a cycle A -> A1 -> A makes M periodic: iterating M itself oscillates)
         v = [1.0] * len(recs)
-        rad = 0.0
-        for _ in range(60):
-            w = [sum(m[i][j] * v[j] for j in range(len(recs))) for i in range(len(recs))]
-            rad = max(w) if w else 0.0
-            if rad == 0:
-                return 0.0
+        rad = 1.0
+        for _ in range(200):
+            w = [v[i] + sum(m[i][j] * v[j] for j in range(len(recs))) for i in range(len(recs))]
+            rad = max(w)
             v = [x / rad for x in w]
-        return rad
+        return rad - 1.0
 
     def _supercritical(self, ir, table):
         """Does generation fail to terminate with positive probability (mean offspring of the recursion >= ~1)?"""
